@@ -8,7 +8,6 @@ DROPS = 'extraction drops: preprocessor-disabled OpenCL/OpenGL/PNG branches, des
 
 PENDING = 'not yet claimed: units for this property are still being brought under contract (see DESIGN.md §10)'
 NOT_APPLICABLE = {
-    'C20': 'behaviour is produced inside boost::program_options; a contract proof would be about an axiomatisation of boost (DESIGN §6)',
 }
 
 SM_KICK = [sm.CalcCoefficiants, sm.UpdateSM, sm.KickMapApply, sm.SourceMapCtor, sm.SourceMapCtor7, sm.KickMapCtor,
@@ -286,5 +285,20 @@ PROPERTIES = {
         'uncovered': ['that the C++ stream prints / boost parses max_digits10 digits exactly (library behaviour; the number of digits written is an obligation, the round trip is exercised natively by po_replay)', 'options given in a parent config file (stored by program_options like any other; exercised natively by po_replay)', 'that rerunning reproduces the results'],
         'explanation': 'obligations over facts extracted from the real AST of the constructor and of save()',
         'technique': 'contract over AST-extracted registration/dispatch tables (writer covers every registered value type), z3 for the alpha0 branch condition',
+    },
+    'C20': {
+        'main_scenarios': ['options'],
+        'units': [io.ProgramOptionsPrecedence, io.ProgramOptionsSave, io.ProgramOptionsGetters],
+        'native_sweep': {'harness': 'po_replay', 'runs': [['getters'], ['roundtrip']], 'hdf5': True},
+        'lemmas': [],
+        'level': 'other',
+        'claim': 'partial — Inovesa\'s own part of the option handling, with boost::program_options bound to four stated library contracts (A-PO-STORE, A-PO-NOTIFY, A-PO-THROW, A-PO-DEFAULT): the command line is stored before the config file; a config file knows every run option the command line knows; each legacy name is accepted in config files only, its value reaches the stored value and the member of the current name, and it yields to the current name when that is given itself (entry erased before the final notify); '
+                 'options accepted for compatibility only are bound to variables main never reads; a config file that does not exist is reported and refused; main reports a parse error with a non-zero status, returns at once on a refused invocation, and parses before anything is built; every accessor returns the member of the option of its meaning',
+        'assumptions': ['A-PO-STORE: variables_map::store never replaces a value stored earlier unless it is defaulted', 'A-PO-NOTIFY: notify applies every stored value to its bound variable, in option-name order',
+                        'A-PO-THROW: parse_command_line / parse_config_file / store throw a std::exception on an unknown option or a malformed value', 'A-PO-DEFAULT: an option not given has defaulted() == true and carries the registered default',
+                        'AST pattern extraction of the registration table, the option groups, the guards of the alias copies and main\'s prologue (a change of shape gives exit 2, not a verdict)'],
+        'uncovered': ['the library behaviour itself (exercised on every thorough run by the whole-program scenario `options` and by po_replay, not proved)', 'the documented default values (no machine-readable source to compare with)', 'legal-value domains of individual options'],
+        'explanation': 'obligations over facts extracted from the real AST of the ProgramOptions constructor, parse() and the prologue of main',
+        'technique': 'contract over AST-extracted facts (store order, option groups, guard chains of the legacy-name copies, catch handlers) under enumerated library contracts for boost::program_options; whole-program scenarios as bounded stand-in for the library part',
     },
 }
